@@ -51,11 +51,27 @@ func vCompare(l *Log, s *vSeq, tag string) {
 }
 
 // vProgram runs `steps` operations chosen nondeterministically on a fresh log with the given segment size.
-func vProgram(steps int, segSize int, withReopen bool) {
+func vProgram(steps int, segSize int, withReopen bool) { vProgramFrom(0, steps, segSize, withReopen) }
+
+// vProgramFrom: as vProgram after a concrete preamble (no forking): shape 1 = three 1-byte entries in one segment,
+// shape 2 = three 16-byte entries in two segments.
+func vProgramFrom(shape int, steps int, segSize int, withReopen bool) {
 	opt := Options{FileMode: 0600, SegmentSize: segSize}
 	l, err := vOpen(vDirL, opt)
 	vAssert(err == nil, "open-empty")
 	s := &vSeq{}
+	var preSizes []int
+	switch shape {
+	case 1:
+		preSizes = []int{1, 1, 1}
+	case 2:
+		preSizes = []int{16, 16, 16}
+	}
+	for _, n := range preSizes {
+		b := vBytes("pre", n)
+		vAssert(l.Append(b) == nil, "preamble-append")
+		s.ents = append(s.ents, b)
+	}
 	sizes := []int{0, 1, 16, segSize - 24, segSize - 23}
 	var view *Log
 	var viewPrev, viewLast uint64
@@ -138,3 +154,6 @@ func VH_C13_programs3() { vProgram(3, 64, false) }
 
 //verif:check C13 tier=thorough stubs=logfs reach=append,rollover,reopen,view-read,end desc="as VH_C13_programs3 plus close/reopen and views" bounds="programs of 4 operations incl. reopen and views; segment size 64" maxdec=4000
 func VH_C13_programs4() { vProgram(4, 64, true) }
+
+//verif:check C13 stubs=logfs reach=append,reopen,back-removed,front-removed,view-read,end desc="programs starting from a 3-entry log (one or two segments) incl. close/reopen and views" bounds="preamble of 3 entries in 1 or 2 segments, then programs of 3 operations (Append, CommitN, RemoveLTE, RemoveGTE, Reset, reopen, view)" maxdec=3000
+func VH_C13_programs3_from3() { vProgramFrom(1+vChoice(2), 3, 64, true) }
